@@ -38,13 +38,25 @@ theorem pair_send_after_close (s : Pair.State) (hc : s.closed = true) (call ctx 
     Pair.step s ["send", call, ctx, h, b] = [(s, [Ev.retErr (natOf call) "closed"])] := by
   simp [Pair.step, hc]
 
-/-- a Recv on a closed PAIR socket returns at once: closed, or a message that was already queued -/
+/-- a Recv on a closed PAIR socket returns at once: closed, or a message that was already queued (or that the
+    receiver goroutine was still offering to the queue) -/
 theorem pair_recv_after_close (s : Pair.State) (hc : s.closed = true) (call ctx : String) :
-    ∀ o ∈ Pair.step s ["recv", call, ctx], Ev.retErr (natOf call) "closed" ∈ o.2 ∨ ∃ m ∈ s.recvQ, Ev.retMsg (natOf call) m.1 m.2 ∈ o.2 := by
+    ∀ o ∈ Pair.step s ["recv", call, ctx], Ev.retErr (natOf call) "closed" ∈ o.2 ∨
+      ∃ m ∈ s.recvQ ++ s.inhand.toList, Ev.retMsg (natOf call) m.1 m.2 ∈ o.2 := by
   intro o ho
   simp only [Pair.step, hc, if_true] at ho
   split at ho
-  · simp at ho; subst ho; left; simp
+  · split at ho
+    · simp at ho; subst ho; left; simp
+    · rename_i m hm
+      simp only [List.mem_cons, List.not_mem_nil, or_false] at ho
+      rcases ho with rfl | rfl
+      · left; simp
+      · right
+        refine ⟨m, by simp [hm], ?_⟩
+        simp only [Pair.settled, List.nil_append]
+        rw [mem_sortByKey]
+        exact ⟨natOf call, List.mem_append_left _ (by simp)⟩
   · rename_i m q hq
     simp only [List.mem_cons, List.not_mem_nil, or_false] at ho
     rcases ho with rfl | rfl
